@@ -267,8 +267,9 @@ def explore(rng, transport, profile, flavor, runner_cls, max_cmds=70):
                 do(['w', 'eof'])
             else:
                 d = srv.next_read()
-                texts = list(srv.sent_texts)
-                do(['w', d.hex(), texts + [t.strip() for t in texts]])
+                texts = srv.sent_texts[info.setdefault('_classified', 0):]
+                info['_classified'] = len(srv.sent_texts)
+                do(['w', d.hex(), list(texts) + [t.strip() for t in texts if t.strip() != t]])
         elif pk == 'close':
             do(['w', None])
         else:
